@@ -9,6 +9,6 @@ check("C07", "model_checking",
       "Trusted: TLC, the rule R in spec/TypeRules.tla (read off the property, docs/errors.md E5xx/E333, docs/features.md, "
       "docs/syntax.md), the renderer and the projection of resolved::ValueType. Shapes are representatives over i32 "
       "(thorough: more pointee/element types). Cells the docs leave open are unconstrained (spec/UNCONSTRAINED-types.md). "
-      "Every kind of cell is also crossed (reduced type pairs) with 10 expression contexts and 9 statement contexts; the rule ignores the context. Assignment targets also range over 16 path shapes (element, member of member, member of element of member array, member through pointer member, ...). Quick: 24 520 cells + 240 programs x 8 mutants; thorough: ~33 000 cells + 3000 programs x 10 mutants.",
+      "Every kind of cell is also crossed (reduced type pairs) with 10 expression contexts and 9 statement contexts; the rule ignores the context. Assignment targets also range over 16 path shapes (element, member of member, member of element of member array, member through pointer member, ...). Quick: 25 057 cells + 240 programs x 8 mutants; thorough: ~33 000 cells + 3000 programs x 10 mutants.",
       "TLA+ spec (TypeRules.tla) + TLC exhaustive enumeration, replay of every cell, TLC trace validation of resolved-tree facts and mutants",
       "DESIGN.md section 5 C07")
